@@ -36,6 +36,7 @@ THEOREMS = [
     "Aio.C08.resumed_read_reparks_with_exception",
     "Aio.C08.resumed_reads_raise",
     "Aio.C08.no_block_with_exception",
+    "Aio.C08.blocked_implies_no_exception",
 ]
 RULE = ("operation sequences over producer ops {feed_data (sizes 0,1,2,3 and limit-1..2*limit+1), begin/end http chunk, "
         "feed_eof, set_exception, connection lost} interleaved with consumer ops {read(n), read(-1), readany, readline/"
@@ -43,8 +44,13 @@ RULE = ("operation sequences over producer ops {feed_data (sizes 0,1,2,3 and lim
         "set_read_chunk_size, resume-of-parked-coroutine}, limits 1..128 (chunk-count water marks 4..8); random "
         "sequences of length <= 60 from seven generator classes (mixed, chunked+readchunk, pure readchunk, chunked+mixed readers, "
         "line-oriented, flow-control boundary, error/eof heavy) plus two systematic families: set_exception/feed_eof orderings x every read API x buffered content x started/resumed, and feed_eof arriving while paused for each reason (bytes, chunk count, between the marks) with the body unread and a next reader probed on the same protocol; thorough adds all sequences of length <= 5 over two 12-op alphabets (limit 1 and 2 / limit 1), quick samples 2500 of length <= 4; limit 0 is generated too (known wedge, own signature). "
-        "A case is non-trivial when at least one byte is delivered or a reader blocks; distinct by content.")
+        "A case is non-trivial when at least one byte is delivered or a reader blocks; distinct by content. "
+        "Server-connection class: the real web.Server protocol over an in-memory transport that honours pause_reading(): 0..35 pipelined GETs + a POST "
+        "whose body (sizes around the water marks of read_bufsize 16/64/256) arrives in segments, handlers released in batches, the POST "
+        "handler reading nothing/part/all; 35% of the cases force both pause reasons (full request queue and body above high water) at once.")
 TRUSTED_BASE = [
+    "the server-connection class (web_protocol.RequestHandler: request-queue pause + body-stream pause on one transport) is not modelled in Lean: it is judged by the direct oracle only (transport reading => body stream <= high water; blocked handler => transport not paused; exact delivery), on the real web.Server protocol",
+    "the entry check of StreamReader._wait() (raise a recorded exception before parking) is not a model flag: blocked_implies_no_exception proves it unreachable without re-entrant feeding once the wake-up re-check is present",
     "behaviour flag waitRechecksException (does _wait() re-check _exception after a regular wake-up) is probed behaviourally from the imported source on every run and written to Generated/C08.lean; the model is parametric in it and every theorem is proved for both values (the findings C08-K2..K9 are proved counterexamples for false, resumed_reads_raise / no_block_with_exception the positive statements for true)",
     "the hand-written Lean model of StreamReader/BaseProtocol pause-resume (tied to the code by the correspondence run only)",
     "re-entrant feeding from inside resume_reading() (BaseProtocol.data_received(b'') with a paused parser) is not modelled: the protocol under test has no pending parser input",
@@ -827,6 +833,7 @@ def check(ctx):
                 ctx.compare(case, 0, 0)
     ctx.extra["cases_with_reader_blocked_while_exception_recorded"] = getattr(run_case, "blocked_with_exc", 0)
     ctx.extra["wait_rechecks_exception"] = _probe_wait_rechecks(_loop())
+    check_server(ctx)
     need = ["out:blocked", "out:chunk", "out:incomplete", "out:stop", "out:err:linetoolong", "out:err:runtime",
             "out:err:assertion", "ev:pause", "ev:resume", "op:w"]
     missing = [n for n in need if not ctx.hits.get(n)]
@@ -835,7 +842,37 @@ def check(ctx):
         raise MachineryError("generator blind spot: never hit " + ", ".join(missing))
 
 
+def check_server(ctx):
+    """second pause reason: the real server protocol (pipelined-request queue + body stream on one transport)"""
+    from .common import c08_server as cs
+    cases = list(cs.DIRECTED) + [cs.gen_case(ctx.rng, i) for i in range(250 if ctx.quick else 3000)]
+    both = over = 0
+    for i, c in enumerate(cases):
+        viol, info = cs.run(c)
+        both += 1 if info.get("paused_both") else 0
+        over += 1 if info.get("max_buffered_over_high") else 0
+        ctx.case(("server", c), nontrivial=bool(info.get("sent")) or c["n_get"] > 0,
+                 sample={"server": {k: c[k] for k in ("rb", "n_get", "total", "first", "reader")}, "steps": c["steps"][:8],
+                         "info": info} if i % 97 == 0 else None)
+        ctx.hit("gen:server", "server:reader-" + c["reader"])
+        if info.get("paused_both"): ctx.hit("server:both-pause-reasons-active")
+        if info.get("post_done"): ctx.hit("server:body-read-to-end")
+        for sig, detail in viol:
+            ctx.violation(sig, c, detail)
+    ctx.extra["server_connection_scenarios"] = {"cases": len(cases), "with_both_pause_reasons_active": both,
+                                                "with_body_above_high_water": over}
+    if not both or not over:
+        from .common.guard import MachineryError
+        raise MachineryError("server-connection generator never had both pause reasons active / a body above high water")
+
+
 def replay(ctx, case):
+    if case.get("kind") == "server":
+        from .common import c08_server as cs
+        viol, _ = cs.run(case)
+        for sig, detail in viol:
+            ctx.violation(sig, case, detail)
+        return
     _, viols = run_case({"limit": case["limit"], "ops": case["ops"]})
     for sig, detail in viols:
         ctx.violation(sig, case, detail)
